@@ -5,13 +5,18 @@ use serde_json::Value;
 use vcore::{Fail, Report};
 
 mod c07;
+mod c22;
+mod c23;
 mod c32;
+mod lspenv;
 mod parse;
 
 fn main() {
     let args = vcore::parse_args();
     match args.property.as_str() {
         "C07" => c07::run(&args),
+        "C22" => c22::run(&args),
+        "C23" => c23::run(&args),
         "C32" => c32::run(&args),
         other => vcore::inconclusive(&format!("isolit: unknown property {other}")),
     }
